@@ -336,6 +336,51 @@ pub fn run(seed: u64, count: usize, maxn: usize, mode: &str, out: &mut impl Writ
                 emit_cli(out, &format!("c{i}"), kind, &g, rng.chance(1, 2), rng.pick(&[1usize, 1, 2, 4]));
             }
         }
+        "huge" => {
+            // Component arrays far above the minimum task length of the parallel loops
+            // (RAYON_MIN_LEN = 100000), too large for the list-based model: the specification
+            // of (par_)sort_by_size - same partition, non-increasing sizes, returned sizes =
+            // compute_sizes() - is evaluated here, in the harness, by linear scans.  An
+            // UNPROVED probe, reported as such (aspect "big").
+            for j in 0..count {
+                let n = [250_003usize, 400_001, 1_000_003][j % 3];
+                let k = rng.range(3, 9);
+                // k components of nearly equal sizes in scrambled order
+                let comp: Vec<usize> = (0..n).map(|i| (i * 7 + i / 3) % k).collect();
+                for par in [false, true] {
+                    let t = rng.pick(&[2usize, 3, 8, 16]);
+                    let mut s2 = sccs::Sccs::new(k, comp.clone().into_boxed_slice());
+                    let r = catch(AssertUnwindSafe(|| {
+                        let sz = if par { pools.get(t).install(|| s2.par_sort_by_size()) } else { s2.sort_by_size() };
+                        (sz, s2)
+                    }));
+                    let v = match r {
+                        Err(m) => format!("FAIL(panic:{})", sanitize(&m)),
+                        Ok((sz, s2)) => {
+                            let new = s2.components();
+                            let mut real = vec![0usize; k];
+                            let mut map = vec![usize::MAX; k];
+                            let mut bad: Option<String> = None;
+                            for i in 0..n {
+                                if new[i] >= k { bad = Some(format!("label-out-of-range:node{i}")); break; }
+                                real[new[i]] += 1;
+                                if map[comp[i]] == usize::MAX { map[comp[i]] = new[i]; }
+                                else if map[comp[i]] != new[i] { bad = Some(format!("partition-changed:node{i}")); break; }
+                            }
+                            if bad.is_none() {
+                                let mut m2 = map.clone(); m2.sort_unstable(); m2.dedup();
+                                if m2.len() != k { bad = Some("components-merged".into()); }
+                                else if real.windows(2).any(|w| w[0] < w[1]) { bad = Some(format!("sizes-not-non-increasing:{}", fmt_ints(&real))); }
+                                else if sz.to_vec() != real { bad = Some(format!("returned-sizes:{}vs{}", fmt_ints(&sz), fmt_ints(&real))); }
+                                else if s2.compute_sizes().to_vec() != real { bad = Some("compute_sizes".into()); }
+                            }
+                            match bad { None => "ok".to_string(), Some(b) => format!("FAIL({b})") }
+                        }
+                    };
+                    writeln!(out, "sccbig id=h{j}{} kind=huge n={n} k={k} par={} t={t} verdict={v}", if par { "p" } else { "s" }, par as u8).unwrap();
+                }
+            }
+        }
         other => {
             eprintln!("scc: unknown mode {other}");
             std::process::exit(2);
